@@ -211,4 +211,41 @@ macro_rules! c09_print_bin {
     };
 }
 
+/// Word order of multi-word printing.  Fully symbolic 64-bit words are out of reach for core::fmt under CBMC,
+/// so every word is restricted to a small symbolic value (< 16 for hex, < 2 for binary): the rendering is then
+/// zero padding plus ONE symbolic digit per word, whose position shows where each word was printed.
+macro_rules! c09_print_order {
+    ($name:ident, $fam:ident, $hex:literal, $u:literal) => {
+        #[kani::proof]
+        #[kani::unwind($u)]
+        pub fn $name() {
+            use crate::verif_common::$fam as F;
+            let mut b = [0u64; F::T];
+            let mut k = 0;
+            while k < F::T {
+                let w: u8 = kani::any();
+                kani::assume(w < if $hex { 16 } else { 2 });
+                b[k] = w as u64;
+                k += 1;
+            }
+            let f = F::mk(&b);
+            let per: usize = if $hex { 16 } else { 64 };
+            let s = if $hex { f.to_hex_string() } else { f.to_bin_string() };
+            assert!(s.len() == per * F::T);
+            // the last character of the chunk printed for word k is that word's digit; chunk order is most significant word first
+            let mut k = 0;
+            while k < F::T {
+                let pos = per * (F::T - k) - 1;
+                assert!(s.as_bytes()[pos] == hexchar(b[k]));
+                k += 1;
+            }
+            let p: usize = kani::any();
+            kani::assume(p < per * F::T && p % per != per - 1);
+            assert!(s.as_bytes()[p] == b'0');
+            kani::cover!(b[0] != b[F::T - 1], "first and last word differ");
+            kani::cover!(true, "reached");
+        }
+    };
+}
+
 // ---- instantiations (generated by /verif/lib/registry.py) ----
